@@ -118,6 +118,7 @@ def run(ctx, rep):
     header_fields(ctx, rep, F, P)
     dynamic_table(ctx, rep, F)
     segment_start_congruence(ctx, rep, F, P)
+    segment_alignment(ctx, rep, F, P)
     rep.assume("addresses, offsets, sizes: runtime quantities, not decided")
 
 
@@ -291,3 +292,68 @@ def segment_start_congruence(ctx, rep, F, P):
         rep.ob("segment-start-congruence", f"{what}#{n}", ok, (f"alignment for {what} derives from the per-segment alignment table" if ok else
                f"the alignment used by {what} at a segment start derives only from {srcs}: the file offset is then congruent to the address modulo the page size, not modulo p_align"), b.file, t["l"])
     rep.floor("segment-start-congruence", "segment-start alignment sites", n, 2)
+
+
+def segment_alignment(ctx, rep, F, P):
+    """p_align of a PT_LOAD must be at least the alignment of every section the segment contains, otherwise the file offset and the address of an
+    over-aligned section are aligned up independently and p_offset ≡ p_vaddr (mod p_align) breaks inside the segment. compute_segment_alignments
+    keeps the set of LOAD segments that are open while it walks the output order; every kind of segment produces an end event, only LOAD segments
+    are in the set, so an end event must remove *its own* id (and nothing when it is not in the set)."""
+    import decide
+    from mir import place_chain
+    rep.rule("segment-alignment", "compute_segment_alignments: a segment joins the active set only on is_load_segment; a SegmentEnd event removes exactly the ending segment's id "
+             "(removal keyed by the event's id, not by position); every Section event raises the alignment of every active segment with max()")
+    b = F.body("libwild::layout::compute_segment_alignments")
+    if b is None:
+        rep.lost("segment-alignment", "layout::compute_segment_alignments")
+        return
+    flow = P.flow(b)
+    closures = {c.key: c for c in F.closures_of("libwild::layout::compute_segment_alignments")}
+    pushes, removes, walks = [], [], []
+    for bi, t in flow.calls():
+        ck = callee_key(t["f"]) or ""
+        if not t["args"] or "Vec" not in ck and "vec::Vec" not in ck:
+            continue
+        recv_ty = b.locals[place_chain(flow, t["args"][0])[1] and sorted(place_chain(flow, t["args"][0])[1])[0] or 0]
+        if "ProgramSegmentId" not in recv_ty:
+            continue
+        name = ck.split("::")[-1]
+        ev = {a[0]: a[1] for a in decide.atoms_at(P, F, b, bi) if isinstance(a[0], str)}
+        arm = ev.get("variant:OrderEvent")
+        if name == "push":
+            pushes.append((bi, t, arm, ev))
+        elif name in ("retain", "remove", "swap_remove", "pop", "truncate", "clear", "drain", "retain_mut", "dedup"):
+            removes.append((bi, t, arm, name))
+        elif name == "into_iter" or name == "iter":
+            walks.append((bi, t, arm))
+    rep.ob("segment-alignment", "push:on-load-start", len(pushes) == 1 and pushes[0][2] == frozenset({"SegmentStart"}) and
+           any(k.endswith("is_load_segment") and v is True for k, v in pushes[0][3].items()),
+           "the only push happens on SegmentStart under is_load_segment()==true", b.file, pushes[0][1]["l"] if pushes else b.line)
+    ok_rm = len(removes) >= 1
+    detail = []
+    for bi, t, arm, name in removes:
+        keyed = False
+        if name in ("retain", "retain_mut") and len(t["args"]) > 1:
+            # the predicate closure must compare against the event's id: it captures a value derived from the event
+            for x in flow.origins(t["args"][1]):
+                if x[0] == "agg" and str(x[1]) in closures:
+                    cl = closures[str(x[1])]
+                    cmp_ = [(callee_key(tt["f"]) or "").split("::")[-1] for _b, tt in P.flow(cl).calls()]
+                    has_cmp = any(c in ("ne", "eq") for c in cmp_) or any(s_["k"] == "assign" and s_["rv"]["k"] == "bin" and s_["rv"]["op"] in ("Ne", "Eq") for blk in cl.blocks for s_ in blk["s"])
+                    keyed = has_cmp
+        elif name in ("remove", "swap_remove") and len(t["args"]) > 1:
+            keyed = any(x[0] == "call" and (x[1] or "").split("::")[-1] in ("position", "rposition") for x in flow.deep_origins(t["args"][1]))
+        detail.append(f"{name} on {sorted(arm) if arm else arm}{' (keyed by the id)' if keyed else ' (positional)'}")
+        if arm != frozenset({"SegmentEnd"}) or not keyed:
+            ok_rm = False
+    rep.ob("segment-alignment", "end:removes-own-id", ok_rm,
+           "; ".join(detail) if ok_rm else "; ".join(detail) + " - the end of a non-LOAD segment nested in a LOAD (PT_TLS, PT_GNU_RELRO) would close the enclosing LOAD: "
+           "sections after it no longer raise its p_align, and an over-aligned section breaks p_offset ≡ p_vaddr (mod p_align)", b.file, removes[0][1]["l"] if removes else b.line)
+    ok_w = any(arm == frozenset({"Section"}) for _bi, _t, arm in walks)
+    rep.ob("segment-alignment", "section:walks-active-set", ok_w, "a Section event iterates the active set", b.file, b.line)
+    mx = False
+    for c in closures.values():
+        names = [(callee_key(tt["f"]) or "").split("::")[-1] for _b, tt in P.flow(c).calls()]
+        if "max" in names:
+            mx = True
+    rep.ob("segment-alignment", "section:max", mx, "the per-segment alignment is raised with max(current, section alignment)", b.file, b.line)
